@@ -173,10 +173,25 @@ def parse_tick(tok):
     return calls, int(tasks), int(safe)
 
 
-def judge(req, m, ans, single):
-    """witnesses of one `cycle` history.  `single`: task id -> {"crash":.., "events": {fn: [(off, set, p3)]}} from
-    the real single-task runs.  With several tasks the calls of a tick must be exactly those of the active tasks
-    taken alone, in task order, each once; a disabled task is not scheduled from the next mframe_schedule() on; the
+def expected_calls(fw, tasks, fn):
+    """the calls the tables prescribe at tick fn for active bitmap `tasks`: for every task bit in ascending order every
+    row whose trigger fires ((fn + SCHEDULE_AHEAD) mod modulo = frame_nr mod modulo), in table order, with frame offset
+    SCHEDULE_AHEAD - SCHEDULE_LATENCY and p3 = task id | flags << 8"""
+    ahead, lat = fw["consts"]["SCHEDULE_AHEAD"], fw["consts"]["SCHEDULE_LATENCY"]
+    exp = []
+    for t in range(32):
+        if not (tasks >> t) & 1 or t >= len(fw["sched_set_for_task"]):
+            continue
+        name = fw["sched_set_for_task"][t]
+        for st, mod, fnr, fl in fw["tables"].get(name, []) if name else []:
+            if mod and (fn + ahead) % mod == fnr % mod:
+                exp.append((fn, ahead - lat, st, (t | (fl << 8)) & 0xffff))
+    return exp
+
+
+def judge(req, m, ans, fw):
+    """witnesses of one `cycle` history: at every tick the calls must be exactly those the tables prescribe for the
+    active tasks, in task order, each once; a disabled task is not scheduled from the next mframe_schedule() on; the
     active set never exceeds the target set and equals it when nothing scheduled is in the way."""
     if ans.startswith("crash"):
         return [{"kind": "fw-runtime", "what": "mframe_schedule() faulted: %s" % ans, "request": req[:200],
@@ -200,18 +215,12 @@ def judge(req, m, ans, single):
         for k, tok in enumerate(o.split(" ") if o != "-" else []):
             fn = h[1] + k
             calls, tasks, safe = parse_tick(tok)
-            exp = []
-            for t in range(32):
-                if (tasks >> t) & 1:
-                    s1 = single.get(t)
-                    if s1 is None or s1["crash"]:
-                        continue
-                    exp += [(fn, off, st, p3) for off, st, p3 in s1["events"].get(fn, [])]
+            exp = expected_calls(fw, tasks, fn)
             bad = None
             if tasks & ~tgt:
                 bad = "a task that is not in the target set is active"
             elif calls != exp:
-                bad = "the calls of the tick are not those of the active tasks taken alone"
+                bad = "the calls of the tick are not the firing rows of the active tasks"
             elif quiet > maxrv + 2 and tasks != tgt:
                 bad = "nothing scheduled is in the way, but the active set is not the target set"
             if bad:
@@ -222,20 +231,20 @@ def judge(req, m, ans, single):
     return []
 
 
-def oracle(run, fw, exe, single):
+def oracle(run, fw, exe):
     reqs, out = real(run, fw, exe)
     wit = []
     for (req, m), ans in zip(reqs, out):
         if m["kind"] == "cycle":
-            wit += judge(req, m, ans, single)
+            wit += judge(req, m, ans, fw)
     return wit
 
 
-def replay_witness(run, exe, w, single):
+def replay_witness(run, exe, w, fw):
     rp = w.get("replay") or {}
     if "request" not in rp:
         return None
     m = rp["meta"]
     m = dict(m, hist=[tuple(h) for h in m["hist"]])
     ans = vf.run_lines([exe], [rp["request"]])[0]
-    return judge(rp["request"], m, ans, single)
+    return judge(rp["request"], m, ans, fw)
